@@ -371,4 +371,58 @@ def actionSearch {V : Type} (N : Native V) (subj res : Entity V) (ctx : Option (
       | .error e => .error e
       | .ok f => .ok (sortNames (allowedNames rels f))
 
+/-! ### the authorization model id
+
+Every native request names an authorization model (`AuthorizationModelId`, "" = the latest model of the
+store).  The AuthZEN endpoints take the id from the `Openfga-Authorization-Model-Id` header
+(`getAuthorizationModelIDFromHeader`: "" when absent or malformed) and put it into EVERY native request
+they build — `buildCheckRequest` (Evaluation, both short-circuit semantics), the `BatchCheckRequest` of
+`evaluateAll`, the `ListUsersRequest`, the `StreamedListObjectsRequest`; ActionSearch resolves the
+typesystem with it and sends the RESOLVED id with its `BatchCheckRequest`
+(`Gen.Authzen.nativeModelIds / modelIdSources / modelIdPassing`). -/
+
+/-- the native API as the server exposes it: every call names a model -/
+structure NativeM (V : Type) where
+  check : String → CheckReq V → Res
+  batchCheck : String → List (CheckReq V) → Except Nat (Nat → Option BatchRes)
+  listUsers : String → ListUsersReq V → Except Nat (List UserRes)
+  streamedListObjects : String → ListObjectsReq V → Except Nat (List String)
+  /-- `resolveTypesystem(store, id)`: the id of the model that `id` resolves to ("" ↦ the latest) -/
+  resolve : String → Except Nat String
+  relations : String → String → Except Nat (List String)
+
+/-- the native API as seen by requests that all carry the model id `mid` -/
+def NativeM.pinned {V : Type} (N : NativeM V) (mid : String) : Native V :=
+  { check := N.check mid, batchCheck := N.batchCheck mid, listUsers := N.listUsers mid,
+    streamedListObjects := N.streamedListObjects mid, relations := N.relations mid }
+
+/-- `Server.Evaluation` with the header value `hdr` -/
+def evaluationH {V : Type} (N : NativeM V) (hdr : String) (subj res : Option (Entity V)) (act : Option (Action V))
+    (ctx : Option (Struct V)) : Except Nat Bool := evaluation (N.pinned hdr) subj res act ctx
+
+/-- `evaluateAll(ctx, req, authorizationModelID)`: `batchMid` is the `AuthorizationModelId` field of the
+`BatchCheckRequest` literal — the code passes the header value -/
+def evaluateAllAt {V : Type} (N : NativeM V) (batchMid : String) (top : Item V) (items : List (Item V)) :
+    Except Nat (List ItemResp) := evaluateAll (N.pinned batchMid) top items
+
+/-- `Server.Evaluations` with the header value `hdr` (all three semantics, and the empty list) -/
+def evaluationsH {V : Type} (N : NativeM V) (hdr : String) (r : EvalsReq V) : Except Nat (List ItemResp) :=
+  evaluations (N.pinned hdr) r
+
+def subjectSearchH {V : Type} (N : NativeM V) (hdr : String) (subjType : String) (subjProps : Option (Struct V))
+    (res : Entity V) (act : Action V) (ctx : Option (Struct V)) : Except Nat (List (String × String)) :=
+  subjectSearch (N.pinned hdr) subjType subjProps res act ctx
+
+def resourceSearchH {V : Type} (N : NativeM V) (hdr : String) (subj : Entity V) (act : Action V) (resType : String)
+    (resProps : Option (Struct V)) (ctx : Option (Struct V)) : Except Nat (List (String × String)) :=
+  resourceSearch (N.pinned hdr) subj act resType resProps ctx
+
+/-- `Server.ActionSearch`: validation, `resolveTypesystem(hdr)`, then relations and BatchCheck of the RESOLVED model -/
+def actionSearchH {V : Type} (N : NativeM V) (hdr : String) (subj res : Entity V) (ctx : Option (Struct V)) :
+    Except Nat (List String) :=
+  if !(validSubject subj && validResource res) then .error invalidArgument
+  else match N.resolve hdr with
+    | .error e => .error e
+    | .ok rid => actionSearch (N.pinned rid) subj res ctx
+
 end OpenFGAVerif.Model.Authzen
